@@ -72,11 +72,14 @@ var Funcs = map[string]FunctionCall{
 	"deg": simpleFunc(func(v float64) float64 {
 		return v * 180 / math.Pi
 	}),
+	// timestamp of a computed vector is the evaluation time. When it is applied
+	// directly to a vector selector the planner makes the selector yield the
+	// sample timestamps and uses TimestampOfSelector instead.
 	"timestamp": func(f FunctionArgs) promql.Sample {
 		return promql.Sample{
 			Point: promql.Point{
 				T: f.StepTime,
-				V: float64(f.Points[0].T) / 1000,
+				V: float64(f.StepTime) / 1000,
 			},
 		}
 	},
@@ -377,6 +380,21 @@ var Funcs = map[string]FunctionCall{
 			},
 		}
 	},
+}
+
+// TimestampOfSelector is the function call of timestamp() over a selector
+// that already yields sample timestamps as values.
+func TimestampOfSelector(f FunctionArgs) promql.Sample {
+	if len(f.Points) == 0 {
+		return InvalidSample
+	}
+	return promql.Sample{
+		Metric: f.Labels,
+		Point: promql.Point{
+			T: f.StepTime,
+			V: f.Points[0].V,
+		},
+	}
 }
 
 func NewFunctionCall(f *parser.Function) (FunctionCall, error) {
